@@ -58,6 +58,7 @@ def parseAddr (s : String) : Option Addr :=
   | _ => none
 
 structure FaultSpec where
+  /-- store read / write faults and `lockStateFail` (letter `u`) -/
   f : Faults := {}
   signFail : List Nat := []
   deriving Inhabited
@@ -67,6 +68,8 @@ def parseFaults (s : String) : Option FaultSpec :=
   (s.splitOn ",").foldlM (init := ({} : FaultSpec)) fun acc tok =>
     if tok == "s" || tok == "b" || tok == "c" then some { acc with f := { acc.f with storeFail := true } }
     else if tok == "S" then some { acc with f := { acc.f with storeFail := true, storeLanded := true } }
+    -- every account fetched for the request answers `IsUnlocked` with an error
+    else if tok == "u" then some { acc with f := { acc.f with lockStateFail := true } }
     else if tok.startsWith "f" then
       (tok.drop 1).toString.toNat?.map (fun i => { acc with f := { acc.f with fetchFail := i :: acc.f.fetchFail } })
     else if tok.startsWith "g" then
